@@ -20,7 +20,8 @@ MANIFEST = dict(
          "cancelled; WaitReturn enabled implies wg = 0 implies no loop, worker or job goroutine of any run is alive and no execution starts "
          "before the next Start. The run counter, the stopRun equality test, wg.Add-before-go and the stop() body are regenerated from "
          "scheduler.go on every run. The real scheduler is driven through sequences with spacing 0/yield/1ms/20ms including Stop immediately "
-         "followed by Start in all three modes with idle/running/blocked jobs; IsStarted after quiescence is compared with the Coq model, and "
+         "followed by Start in all three modes with idle/running/blocked jobs, and through cancellation of the Start context while the "
+         "execution loop is held inside a blocking-mode job or a slow Size/Head/Pop of a custom queue (then Start before / after the loop is let go); IsStarted after quiescence is compared with the Coq model, and "
          "Wait, executions after Wait, job-side ctx.Done and the goroutine profile are checked. Goroutine exit itself is observed, not proved.",
     design_ref="6 C10")
 
@@ -73,6 +74,57 @@ def pool_oracle(r):
     if r["saw_done"] < r["started"]:
         why.append("%d running job(s) did not see their context cancelled" % (r["started"] - r["saw_done"]))
     return why
+
+
+def busy_oracle(r):
+    """Cancellation of the context given to Start is equivalent to Stop, whatever the loop is doing."""
+    where = "inside a blocking-mode job that returns late" if r["variant"] == "job" else "inside a slow %s() of a custom queue" % r["variant"]
+    if r.get("error"):
+        return ["busy-cancel scenario could not be driven (loop held %s): %s" % (where, r["error"])]
+    why = []
+    if r["started_after_cancel"]:
+        why.append("the context given to Start was cancelled while the execution loop was held %s: IsStarted() still true 3 s later "
+                   "(cancellation must be equivalent to Stop)" % where)
+    if not r["started_after_start"]:
+        why.append("Start after that cancellation%s: IsStarted() false right after it" % (" (old loop still held)" if r["restart"] else ""))
+    if not r["started_after_release"] or not r["stable"]:
+        why.append("Start was the last lifecycle call, yet IsStarted() is %s (stable=%s) once the loop of the cancelled run had been let go: "
+                   "the old run's exit stopped the scheduler" % (r["started_after_release"], r["stable"]))
+    if r["probe_execs"] != 1:
+        why.append("a job scheduled after the restart, due at once, was executed %d times within 4 s" % r["probe_execs"])
+    if r["probe_execs_with_cancelled_ctx"]:
+        why.append("the job scheduled after the restart was entered with a cancelled context")
+    if not r["wait_returned"]:
+        why.append("Wait did not return within 6 s after Stop")
+    return why
+
+
+def run_busy(binp, seed, rounds):
+    rc, rows, out = lc.run_json([binp, "busycancel", str(seed), str(rounds)], timeout=300)
+    if rc != 0:
+        if "panic:" in out or "fatal error:" in out:
+            m = out[out.find("panic:") if "panic:" in out else out.find("fatal error:"):]
+            return [{"kind": "busycancel", "variant": "job", "restart": True, "ops": [], "error": "the harness process died: " + m[:500]}]
+        raise RuntimeError("looph busycancel failed: " + out[-2000:])
+    return [r for r in rows if r.get("kind") == "busycancel"]
+
+
+def busy_failures(binp, seed, rounds):
+    rows = run_busy(binp, seed, rounds)
+    bad = [r for r in rows if busy_oracle(r)]
+    out = []
+    if bad:
+        again = [r for r in run_busy(binp, seed + 1, rounds) if busy_oracle(r)]
+        same = [r for r in bad if (r["variant"], r["restart"]) in {(x["variant"], x["restart"]) for x in again}]
+        if same:
+            r = max(same, key=lambda x: len(busy_oracle(x)))
+            out.append({"case": {"kind": "busycancel", "variant": r["variant"], "restart": r["restart"], "ops": r["ops"], "seed": seed, "rounds": rounds},
+                        "why": busy_oracle(r), "observed": {k: r.get(k) for k in ("started_after_cancel", "started_after_start", "started_after_release", "stable", "probe_execs")},
+                        "failing_trials": "%d of %d, then %d of %d" % (len(bad), len(rows), len(again), len(rows)),
+                        "how": "looph busycancel: Start(ctx); the execution loop is held (variant: job = inside a blocking-mode job that ignores its "
+                               "context, Size/Head/Pop = inside that call of a gated custom queue); cancel(ctx); IsStarted polled 3 s; "
+                               "restart=true: Start, then the loop is let go / false: the loop is let go, then Start; IsStarted; a job due at once must run"})
+    return rows, out
 
 
 def run_life(binp, seed, n, only=None):
@@ -138,7 +190,7 @@ Print MISMATCH.
 """
 
 
-def model_mismatches(rows):
+def model_mismatches(rows, busy=()):
     items = []
     byid = {}
     for r in rows:
@@ -147,12 +199,20 @@ def model_mismatches(rows):
         byid[r["id"]] = r
         ops = "; ".join(OPS[o["op"]] for o in r["ops"])
         items.append("(%d%%nat, (%s, [%s], %s))" % (r["id"], MODES[r["mode"]], ops, "true" if r["observed_started"] else "false"))
+    for r in busy:
+        # the busy-cancel trials: start, cancel, start -- the model's answer does not depend on what the loop is doing
+        if r.get("error") or not r.get("stable"):
+            continue
+        i = 100000 + r["trial"]
+        byid[i] = {"mode": "blocking" if r["variant"] == "job" else "unbounded", "ops": r["ops"], "observed_started": r["started_after_release"], "busycancel": r["variant"]}
+        items.append("(%d%%nat, (%s, [%s], %s))" % (i, MODES[byid[i]["mode"]], "; ".join(OPS[o] for o in r["ops"]), "true" if r["started_after_release"] else "false"))
     if not items:
         return [], ""
     ids, out = lc.coq_eval_list("c10_cases", MODEL_V % ";\n".join(items))
     if ids is None:
         return None, out
-    return [{"case": {"id": i, "mode": byid[i]["mode"], "ops": byid[i]["ops"]}, "observed_started": byid[i]["observed_started"],
+    return [{"case": {"id": i, "mode": byid[i]["mode"], "ops": byid[i]["ops"], **({"busycancel": byid[i]["busycancel"]} if "busycancel" in byid[i] else {})},
+             "observed_started": byid[i]["observed_started"],
              "what": "IsStarted() after quiescence differs from the Coq lifecycle model run on the same operations"} for i in ids], out
 
 
@@ -183,8 +243,10 @@ def run(ctx):
     failures += rf
     stale_rows, sf = lc.stale_worker_failures(binp, ctx.seed, nres)
     failures += sf
+    busy_rows, bf = busy_failures(binp, ctx.seed, 2 if ctx.tier == "quick" else 8)
+    failures += bf
     if lc.model_available():
-        bad, out = model_mismatches(rows)
+        bad, out = model_mismatches(rows, busy_rows)
         if bad is None:
             mismatches.append({"error": "model evaluation failed", "detail": out[-1500:]})
         else:
@@ -212,6 +274,7 @@ def run(ctx):
         "samples": [{"mode": r["mode"], "jobs": r["jobs"], "ops": r["ops"], "observed_started": r["observed_started"]} for r in rows[:3]],
         "exhaustive": False,
         "pool_shutdown_rounds": len(pool_rows), "sequences_with_immediate_restart": len(restarts), "restart_with_old_loop_alive_trials": len(restart_rows), "restart_with_old_worker_busy_trials": len(stale_rows),
+        "cancel_while_loop_busy_trials": len(busy_rows),
         "model_mismatches": len(mismatches), "oracle_failures": len(failures),
         "partial_runtime": "goroutine exit and the absence of executions after Wait are observed (goroutine profile filtered to go-quartz/quartz frames), not proved",
     })
@@ -241,6 +304,13 @@ def replay(ctx, path):
         print(json.dumps({"rounds": len(POOL), "failing": len(bad)}))
         if bad:
             vlib.report_violation(ctx, {"case": c, "why": pool_oracle(bad[0])})
+            return 1
+        return 0
+    if c.get("kind") == "busycancel":
+        rows, bf = busy_failures(binp, c.get("seed", ctx.seed), c.get("rounds", 2))
+        print(json.dumps({"trials": len(rows), "failing": len([r for r in rows if busy_oracle(r)])}))
+        if bf:
+            vlib.report_violation(ctx, bf[0])
             return 1
         return 0
     if c.get("kind") == "staleworker":
